@@ -6,6 +6,7 @@ mod ast_walk_gen;
 mod memfs;
 mod parse_obs;
 mod pool;
+mod srv;
 mod tree_obs;
 mod util;
 mod ws_obs;
@@ -20,6 +21,7 @@ fn handle(item: &Value) -> Value {
         "lex" => parse_obs::lex_item(item),
         "tree" => tree_obs::tree_item(item),
         "analysis" => ws_obs::analysis_item(item),
+        "session" => srv::session_item(item),
         other => json!({"id": item.get("id"), "outcome": "ToolError", "msg": format!("unknown kind {other}")}),
     }
 }
